@@ -452,6 +452,13 @@ pub fn gen_large_session(rng: &mut Rng, p: &Profile) -> (SessionCfg, Vec<Op>) {
         pform: 0,
     };
     let cfg = SessionCfg { pform: gen_pform(rng, cfg.set, &cfg.script), ..cfg };
+    // the handler, too, may switch to one of the long prompts
+    let mut cfg = cfg;
+    for a in cfg.script.iter_mut() {
+        if a.set_prompt.is_some() && rng.chance(40) {
+            a.set_prompt = Some(rng.range(SMALL_PROMPTS, PROMPTS.len() - 1));
+        }
+    }
     let any_prompt = |rng: &mut Rng| if rng.chance(40) { rng.range(SMALL_PROMPTS, PROMPTS.len() - 1) } else { rng.below(SMALL_PROMPTS) };
     let mut ops: Vec<Op> = Vec::new();
     let bytes = |ops: &mut Vec<Op>, b: &[u8]| ops.extend(b.iter().map(|&x| Op::Byte(x)));
